@@ -4,7 +4,7 @@ from facts import strip_generics, callee_of
 import sym
 import c07, c06
 
-CONFIGS_QUICK = ["F_all"]
+CONFIGS_QUICK = ["F_all", "F_nool"]  # every configuration whose cfg-gated code the property depends on
 CONFIGS_THOROUGH = ["F_all", "F_nool"]
 TECHNIQUE = 'static analysis: decision table of StartTrimmer::trim, merge/drop-set rules of XmlReader, call-graph rule for ignored content, who-may-call rule for text-piece unescaping (resolver on every piece)'
 EXPLANATION = (
@@ -195,4 +195,38 @@ def r6_pieces_decoded_alike(ctx):
         ctx.floor("R6", "Text-piece conversions in the deserializer", n, 2, config=cfg)
 
 
-RULES = [("R1", r1_trim_table), ("R2", r2_merge), ("R3", r3_expand), ("R4", r4_unknown_skipped), ("R5", r5_trimmer_in_sync), ("R6", r6_pieces_decoded_alike)]
+def r7_skip_without_buffer(ctx):
+    """Without overlapped lists an ignored element is skipped by Deserializer::read_to_end(name) directly on the
+    reader: the event already taken decides what is left to skip.  Start(e): skip e's content, then the rest up to
+    name's end; End with the same name: nothing left; anything else: skip up to name's end."""
+    for cfg, F in ctx.facts.items():
+        if "overlapped-lists" in F.features or "serialize" not in F.features:
+            ctx.ob("R7", "not-compiled[%s]" % cfg, True, "this read_to_end exists only without overlapped-lists", config=cfg)
+            continue
+        b = ctx.body(F, "de::Deserializer::read_to_end", "R7")
+        if b is None:
+            continue
+        rows = {}
+        for p in ctx.paths(b):
+            if ends(p) != "ret" or is_error_exit(p):
+                continue
+            nx = decision_on(p, c07.is_next_discr)
+            var = c07.devar(F, nx) if isinstance(nx, int) else "other"
+            same = None
+            for e in p:
+                if e[0] == "switch" and e[2][0] == "call" and name_is(e[2][2], "eq", "ne"):
+                    same = name_is(e[2][2], "eq") == (e[3] != 0)
+            skips = []
+            for c in calls(p):
+                if name_is(c[2], "read_to_end") and not isinstance(c[1], tuple) and "XmlReader" in c[2]:
+                    a = strip_wrappers(c[3][1])
+                    skips.append("name" if a[0] == "arg" and a[2] == "name" else "inner" if has_subterm(a, lambda s2: call_is(s2, "name")) else "?")
+            rows.setdefault((var, same), set()).add(tuple(skips))
+        want = {("Start", None): {("inner", "name")}, ("End", True): {()}, ("End", False): {("name",)}}
+        for k, w in want.items():
+            ctx.ob("R7", "read_to_end[no buffer]:row%s" % list(k), rows.get(k) == w, "after taking %s (same name: %s) the reader must skip %s; extracted %s" % (k[0], k[1], sorted(w), sorted(rows.get(k, []))), config=cfg)
+        rest = {k: v for k, v in rows.items() if k not in want}
+        ctx.ob("R7", "read_to_end[no buffer]:others", bool(rest) and all(v == {("name",)} for v in rest.values()), "any other event: skip up to the end of `name`: %s" % {str(k): sorted(v) for k, v in rest.items()}, config=cfg)
+
+
+RULES = [("R1", r1_trim_table), ("R2", r2_merge), ("R3", r3_expand), ("R4", r4_unknown_skipped), ("R5", r5_trimmer_in_sync), ("R6", r6_pieces_decoded_alike), ("R7", r7_skip_without_buffer)]
